@@ -142,6 +142,33 @@ CLAIMED = {
              "extracted for fitting (element-wise on curves of symbolic length, molar vs mass feed points).",
         note=TB + "fitted coefficients compared through their inputs (identical find_best_fit application / identical measurement points); repaired by fix commits 56213d2, c90f218, bbb5fa0",
         technique="relational verification over contracts (two runs with x_molar = to_molar(w)); lock-step; ring normal form / z3"),
+    'C16': dict(
+        level='proof', ref='DESIGN.md 3/C16',
+        text="fit(): frame obligation on the real body (ownership analysis: copy.copy aliases fields; any write to the caller's Measurements or its list is reported) for zero/no-zero "
+             "points, both component indices, auto/forced orders; result = from_array(minimize(objective on a private copy, zeros, 'Powell').x). find_best_fit and fit_vle: "
+             "min-tracking loop invariant proved on the real loop body for a generic iteration (candidate = fit(data,n',m') / method result, loss = sum over the SUPPLIED data of "
+             "(f(x,t)-p)^2 element-wise, strict-< update) + initial state + exit, giving SSE(result) <= SSE(every tried candidate); PervaporationFunction against the closed form "
+             "and (f*c)=c f for every shape n,m <= 3 (quick) / 5 (thorough).",
+        note=TB + "assumed contract of scipy.optimize.minimize (terminates, deterministic, does not modify inputs): determinism = proved frames + that assumption; "
+                  "closed form unrolled per shape (bounded part, labelled); repaired by fix commit fc3a44d",
+        technique="frame/ownership contracts + loop invariant on a generic iteration of the real loop body + per-shape symbolic execution; z3 / ring normal form"),
+    'C20': dict(
+        level='proof', ref='DESIGN.md 3/C20',
+        text="`modifies nothing` frame obligations, proved by the executor's ownership analysis (arguments, caller lists and module-level mutable constants are 'external/global'; "
+             "every attribute/item assignment, append/pop on them is recorded) for every modelling entry point: thermodynamic functions at interior and end-point compositions, "
+             "conversions (9 unit pairs), flux law, solver (loop cut), helpers, ideal/non-ideal curves, curve construction, all process models (modes, programme, curve-set shapes), "
+             "membrane functions, fits and measurement extraction; AST scan: no global/nonlocal, no class-attribute assignment, no setattr. Plus a labelled bounded stand-in: random "
+             "call histories on shared objects under the real interpreter compared with fresh-state executions.",
+        note=TB + "determinism relies on the assumed purity of numpy/scipy; callee frames are used modularly and proved in the same check; history replay is bounded (2 sequences quick, 12 thorough) and not counted as proved",
+        technique="frame (modifies-nothing) contracts checked by ownership analysis during symbolic execution of the real bodies + AST scans; bounded native history replay"),
+    'C17': dict(
+        level='other', ref='DESIGN.md 3/C17',
+        text="BOUNDED, not a proof: pandas/joblib/json decide this property and are outside any contract the engine can verify. Checked: (1) run-time round-trip contracts on the real "
+             "save/load functions over an enumerated corpus (curves in 3 permeate modes x molar/mass x value scales 1e-9..1e3, permeance functions binary+JSON, conditions, process "
+             "models of all four kinds in both storage modes, repeated saves and a forced directory-name collision with directory snapshots); (2) an AST-level frame argument that "
+             "ProcessModel.save only writes `process_path / name` with process_path created by mkdir(exist_ok=False).",
+        note="bound: 16 objects (quick) / ~50 (thorough), seeded; pathlib mkdir contract assumed; serialisation libraries trusted only as far as the corpus exercises them",
+        technique="run-time checked contracts on the real functions over a bounded corpus (stand-in) + AST scan"),
 }
 
 NOT_YET = "check under construction (see DESIGN.md section 7); not claimed until every obligation is in place"
